@@ -48,3 +48,4 @@ pub mod damage;
 pub mod queries;
 pub mod ws;
 pub mod sema;
+pub mod lspmodel;
